@@ -373,12 +373,16 @@ def multistream_case(job):
     s = solver_class(alg)(ch)
     if alg != "ClosedForm":
         s.max_iterations = 30
+        # every initialisation mode (the alternating-minimization solver cannot be initialised from itself)
+        mode = ("random", "closed_form", "svd", "alt_min")[(seed // 2) % 4]
+        s.initialize_with = mode if not (alg == "AltMin" and mode == "alt_min") else "closed_form"
     powers = 1.5 if seed % 2 == 0 else np.array([1.5, 1.5, 1.5]) * np.array([1.0, 1e-9, 1.0])[np.roll(np.arange(3), seed % 3)]
     pw = np.ones(3) * powers
     try:
         s.solve(2, powers)
     except AssertionError as ex:
-        return f"{alg}.solve(Ns=2) stopped on an assertion: {ex!r}", ("MinLeakMultiStreamAsserts" if alg == "MinLeakage" else None)
+        return (f"{alg}.solve(Ns=2) initialised with {getattr(s, 'initialize_with', '-')} stopped on an assertion: {ex!r}",
+                ("MinLeakMultiStreamAsserts" if alg == "MinLeakage" else None))
     except Exception as ex:
         return f"{alg}.solve(Ns=2) raised {type(ex).__name__}: {ex}", None
     bad = []
@@ -400,6 +404,111 @@ def multistream_case(job):
         except Exception as ex:
             bad.append(f"full_W_H of user {k} cannot be evaluated: {type(ex).__name__}: {ex}")
     return ("; ".join(bad) if bad else None), None
+
+
+def solution_defects(s, ch, alg, K, Nr, Nt, pw):
+    """the statement's relations on a solved solver (rel): shapes vs Ns, unit norm, power, own channel -> identity"""
+    bad = []
+    for k in range(K):
+        Fk = np.asarray(s.F[k])
+        if Fk.shape != (Nt[k], int(s.Ns[k])):
+            bad.append(f"F[{k}] shape {Fk.shape} vs Nt {Nt[k]}, Ns {s.Ns[k]}")
+        if alg != "MMSE" and abs(np.linalg.norm(Fk, "fro") - 1) > 1e-6:
+            bad.append(f"F[{k}] norm {np.linalg.norm(Fk, 'fro'):.6f}")
+        pwk = np.linalg.norm(np.asarray(s.full_F[k]), "fro") ** 2
+        if pwk > pw[k] * (1 + 1e-6):
+            bad.append(f"user {k} power {pwk:.6g} > {pw[k]:.6g}")
+        elif alg != "MMSE" and abs(pwk - pw[k]) > 1e-6 * pw[k]:
+            bad.append(f"user {k} power {pwk:.6g} does not meet {pw[k]:.6g}")
+        if np.asarray(s.W_H[k]).shape != (int(s.Ns[k]), Nr[k]):
+            bad.append(f"W_H[{k}] shape {np.asarray(s.W_H[k]).shape} vs Ns {s.Ns[k]}, Nr {Nr[k]}")
+        try:
+            m = np.asarray(s.full_W_H[k]).dot(ch.get_Hkl(k, k)).dot(s.full_F[k])
+            if not np.allclose(m, np.eye(m.shape[0]), atol=1e-5):
+                bad.append(f"own channel of user {k} is not turned into the identity")
+        except Exception as ex:
+            bad.append(f"full_W_H of user {k} cannot be evaluated: {type(ex).__name__}: {ex}")
+    rp = np.ones(K) * np.asarray(s.P, dtype=float)
+    if not np.allclose(rp, pw, rtol=1e-12, atol=0):
+        bad.append(f"the solver reports P = {rp.tolist()}, it was given {list(pw)}")
+    return bad
+
+
+CONFIGS = [  # (Nr, Nt, K, Ns): non-square antennas, unequal stream counts, four users
+    (2, 3, 3, 1), (3, 2, 3, 1), (3, 4, 3, [2, 1, 1]), (4, 3, 3, [1, 2, 1]), (4, 4, 3, [2, 1, 2]), (3, 3, 4, 1)]
+
+
+def config_case(job):
+    """solving completes and yields a valid solution on non-square / unequal-stream configurations"""
+    alg, ci, seed = job
+    Nr, Nt, K, Ns = CONFIGS[ci]
+    from pyphysim.channels.multiuser import MultiUserChannelMatrix
+    ch = MultiUserChannelMatrix()
+    ch.set_channel_seed(seed)
+    ch.randomize(Nr, Nt, K)
+    ch.noise_var = 0.01
+    s = solver_class(alg)(ch)
+    s.max_iterations = 40
+    powers = 1.3 if seed % 2 == 0 else np.array([1.5, 0.7, 1.1, 2.0])[:K]
+    try:
+        s.solve(Ns if seed % 3 else (np.array(Ns) if not isinstance(Ns, int) else Ns), powers)
+    except Exception as ex:
+        return f"{alg}.solve(Ns={Ns}) on {K} users {Nr}x{Nt} raised {type(ex).__name__}: {ex}"
+    bad = solution_defects(s, ch, alg, K, [Nr] * K, [Nt] * K, np.ones(K) * powers)
+    return (f"{alg} on {K} users {Nr}x{Nt} Ns={Ns} P={powers}: " + "; ".join(bad)) if bad else None
+
+
+def leak_multi_case(job):
+    """(rel) leakage never increases from one iteration to the next, several (unequal) streams per user, equal powers,
+    no noise; the solver is continued one iteration at a time from its own precoders"""
+    alg, Nr, Ns, seed = job
+    from pyphysim.channels.multiuser import MultiUserChannelMatrix
+    K = len(Ns)
+    ch = MultiUserChannelMatrix()
+    ch.set_channel_seed(seed)
+    ch.randomize(Nr, Nr, K)
+    s = solver_class(alg)(ch)
+    s.max_iterations = 1
+    s.relative_factor = 0.0
+    costs = []
+    try:
+        s.solve(np.array(Ns))
+        costs.append(float(np.real(s.get_cost())))
+        s.initialize_with = "fix"
+        for _ in range(45):
+            s.solve(np.array(Ns))
+            costs.append(float(np.real(s.get_cost())))
+    except Exception as ex:
+        return f"{alg} Ns={Ns}: continued solve raised {type(ex).__name__}: {ex}", costs
+    floor = 1e-9 * max(1.0, costs[0])
+    for i in range(len(costs) - 1):
+        if costs[i + 1] > costs[i] + floor:
+            return f"{alg} {Nr}x{Nr} Ns={Ns} seed={seed}: leakage rose from {costs[i]:.8e} to {costs[i + 1]:.8e} at iteration {i + 2}", costs
+    return None, costs
+
+
+def greedy_case(job):
+    """the greedy stream-reduction wrapper leaves the wrapped solver with a valid solution for the power it was given"""
+    alg, seed = job
+    from pyphysim.channels.multiuser import MultiUserChannelMatrix
+    from pyphysim.ia.algorithms import GreedStreamIASolver
+    K, N = 3, 4
+    ch = MultiUserChannelMatrix()
+    ch.set_channel_seed(seed)
+    ch.randomize(N, N, K)
+    ch.noise_var = 1e-3 if seed % 2 else 0.1
+    s = solver_class(alg)(ch)
+    s.max_iterations = 40
+    if seed % 3 == 0:
+        s.initialize_with = "closed_form"
+    powers = np.array([1.2, 1.5, 0.9]) if seed % 2 else 1.7
+    g = GreedStreamIASolver(s)
+    try:
+        g.solve(2, powers)
+    except Exception as ex:
+        return f"GreedStream({alg}).solve(2, {powers}) raised {type(ex).__name__}: {ex}"
+    bad = solution_defects(s, ch, alg, K, [N] * K, [N] * K, np.ones(K) * powers)
+    return (f"GreedStream({alg}) P={powers} seed={seed} (final Ns {list(s.Ns)}): " + "; ".join(bad)) if bad else None
 
 
 def explore(ctx, alg, r, mode):
@@ -464,7 +573,7 @@ def run(ctx):
         if d:
             ctx.violation(d, {"kind": "leak", "job": list(job), "costs": costs})
     # solvers complete for several streams per user
-    jobs = [(alg, ctx.seed * 31 + i) for alg in ALGS for i in range(12 if thorough else 6)]
+    jobs = [(alg, ctx.seed * 31 + i) for alg in ALGS for i in range(16 if thorough else 8)]
     for job, (d, fid) in zip(jobs, pool_map(multistream_case, jobs)):
         ctx.ok(("multistream",) + job)
         if d:
@@ -472,12 +581,46 @@ def run(ctx):
                 ctx.finding(fid, d, {"kind": "multistream", "job": list(job)})
             else:
                 ctx.violation(d, {"kind": "multistream", "job": list(job)})
+    rel_cases(ctx)
+
+
+def rel_cases(ctx):
+    thorough = ctx.tier == "thorough"
+    n = 8 if thorough else 3
+    jobs = [(alg, ci, ctx.seed * 13 + i) for alg in ALGS if alg != "ClosedForm" for ci in range(len(CONFIGS)) for i in range(n)]
+    for job, d in zip(jobs, pool_map(config_case, jobs)):
+        ctx.ok(("config",) + job)
+        if d:
+            ctx.violation(d, {"kind": "config", "job": list(job)})
+    jobs = [(alg, Nr, Ns, ctx.seed * 17 + i) for alg in ("AltMin", "MinLeakage") for Nr, Ns in ((4, [3, 2, 2]), (4, [2, 1, 2, 1]), (6, [5, 3, 3]))
+            for i in range(6 if thorough else 2)]
+    for job, (d, costs) in zip(jobs, pool_map(leak_multi_case, jobs)):
+        ctx.ok(("leakmulti", job[0], job[1], str(job[2]), job[3]))
+        if d:
+            ctx.violation(d, {"kind": "leakmulti", "job": list(job), "costs": costs})
+    jobs = [(alg, ctx.seed * 19 + i) for alg in ("AltMin", "MinLeakage", "MaxSINR", "MMSE") for i in range(12 if thorough else 6)]
+    for job, d in zip(jobs, pool_map(greedy_case, jobs)):
+        ctx.ok(("greedy",) + job)
+        if d:
+            ctx.violation(d, {"kind": "greedy", "job": list(job)})
 
 
 def replay(ctx, data):
     c = data["case"]
     ctx.ok()
-    if c["kind"] == "path":
+    if c["kind"] == "config":
+        d = config_case(tuple(c["job"]))
+        if d:
+            ctx.violation(d, c)
+    elif c["kind"] == "leakmulti":
+        d, costs = leak_multi_case(tuple(c["job"]))
+        if d:
+            ctx.violation(d, c)
+    elif c["kind"] == "greedy":
+        d = greedy_case(tuple(c["job"]))
+        if d:
+            ctx.violation(d, c)
+    elif c["kind"] == "path":
         okc, v = run_path((c["alg"], c["path"], c["seed"]))
         if v:
             ctx.violation(v["what"], c)
